@@ -169,6 +169,23 @@ def same_derivation(t, r, path='root'):
     return None
 
 
+def label_complaint(r, path='root'):
+    """oracle: a binary node that the grammar derives from its children is labelled with (one of) the deriving rule(s) - never 'unk'"""
+    if r.is_leaf:
+        return None
+    if not r.is_unary:
+        rules = R.BINARY_RULES[get_global_language()]
+        cands = {(x.op_string, x.op_symbol) for x in rules(r.left_child.cat, r.right_child.cat) if x.cat == r.cat}
+        if cands and (r.op_string, r.op_symbol) not in cands:
+            return (f'{path}: {r.left_child.cat} {r.right_child.cat} => {r.cat} is derived by {sorted(cands)} '
+                    f'but the node read back is labelled {(r.op_string, r.op_symbol)}')
+    for i, c in enumerate(r.children):
+        m = label_complaint(c, f'{path}.{i}')
+        if m:
+            return m
+    return None
+
+
 def mutate(rng, line):
     """a garbled version of a printed line"""
     k = rng.randrange(12)
@@ -345,6 +362,9 @@ def run(ctx):
         m = same_derivation(t, r.tree)
         if m:
             ctx.fail('roundtrip', f'read_auto(auto_of(t)) differs from t at {m}; line {line!r}', {'auto': line, 'where': m})
+        m = label_complaint(r.tree)
+        if m:
+            ctx.fail('labels', f'label of a node read from {line!r}: {m}', {'auto': line, 'where': m})
         if r.name != 'ID=1' or list(r.tokens) != [l.token for l in r.tree.leaves]:
             ctx.fail('roundtrip_tokens', f'name/tokens of the reader result do not belong to the tree read from {line!r}', {'auto': line})
         line2 = auto_of(r.tree)
